@@ -37,6 +37,7 @@ CONFIGS = [
     {"layerWidth": 6, "density": 0.5},  # a layer width without an upper bound must not split anything
     {"maxPos": 12, "nodeSpacing": 0.5, "density": 0.3, "stubWidth": 1},  # split without collisions: stubs closer than the line spacing
     {"minPos": F(5, 2), "maxPos": F(21, 2)},  # bounds given as another real-number type
+    {"minPos": 3, "maxPos": 3},  # a zero-width band: nothing fits, everything spills
     # ---- thorough only
     {"maxPos": 14},
     {"maxPos": 6},
@@ -415,13 +416,13 @@ def multisets(alpha, nmax):
 def plan_layout(tier, seed, nshards=64):
     parts = []
     if tier == "quick":
-        parts.append({"alpha": "v0", "nmax": 4, "nconf": 14})
+        parts.append({"alpha": "v0", "nmax": 4, "nconf": 15})
     else:
-        parts.append({"alpha": "v0", "nmax": 5, "nconf": 28})
+        parts.append({"alpha": "v0", "nmax": 5, "nconf": 29})
         parts.append({"alpha": "v0n6", "nmax": 6, "nmin": 6, "nconf": 8})  # six labels on the two-width alphabet, 8 + 3 configs
-        parts.append({"alpha": "v1", "nmax": 4, "nconf": 14})
-    parts.append({"alpha": "seed", "nmax": 3, "nconf": 14, "seed": seed})
-    parts.append({"alpha": "w4", "nmax": 5 if tier == "quick" else 7, "nconf": 14})  # one width: more labels per input
+        parts.append({"alpha": "v1", "nmax": 4, "nconf": 15})
+    parts.append({"alpha": "seed", "nmax": 3, "nconf": 15, "seed": seed})
+    parts.append({"alpha": "w4", "nmax": 5 if tier == "quick" else 7, "nconf": 15})  # one width: more labels per input
     parts.append({"alpha": "frac", "nmax": 3 if tier == "quick" else 4, "nconf": len(FRAC_CONFIGS)})  # fractional widths
     parts.append({"alpha": "near", "nmax": 3 if tier == "quick" else 4, "nconf": len(NEAR_CONFIGS)})
     for base in BIG_BASES:
@@ -616,7 +617,7 @@ def bounds(tier, seed):
     return {
         "alphabet": "positions 0..6 step 0.5 x widths {1,4}" + (" (+2.5 at n<=4)" if tier == "thorough" else ""),
         "max_labels": "4 (5 with one width)" if tier == "quick" else "5 (7 with one width)",
-        "configs": (14 if tier == "quick" else 28) + len(DEPENDENT),
+        "configs": (15 if tier == "quick" else 29) + len(DEPENDENT),
         "seeded_slice": {"seed": seed, "letters": seeded_letters(seed)[:4], "nmax": 3},
         "near_tie_targets": NEAR_TIES, "big_magnitudes": list(BIG_BASES),
         "sweep": "n=1..200 x 6 pitches x 3 width patterns x 4 configs" if tier == "thorough" else
